@@ -4,7 +4,7 @@ from checks.enginelib import *
 META = {
     "text": 'Lean: component model Ack (every entry written or queued during the run is tagged with the request that committed it); inductive invariant Ack.Inv (step_inv, for every choice of previews); theorems over all accepted event sequences incl. crashes and store failures: ack_implies_durable + ack_only_when_durable (a success stands for an entry persisted at that moment, carrying the answered transaction id), ack_stays_durable (the store only grows), every_entry_has_producer (store = initial log ++ entries each committed by a real request), error_leaves_nothing (now or later), one_entry_per_request, answer_is_the_entry, crash_before_persist_leaves_nothing (lost logs: no entry, producers never acknowledged, wake-up and success rejected), store_failure_never_acks, wake_only_when_durable. Tie: trace validation (a request is woken only when its own log is persisted; success only with a persisted entry with that id; no commit by an answered request); oracle: responses vs the durable log at response time.',
     "note": "PARTIAL: pond/job.Runner internals and Go panic propagation are abstracted to 'a failing InsertLogs is followed by process death without a wake-up' (observed on the real runner). Trusted: Lean kernel; event extraction.",
-    "technique": 'Lean 4 proof (inductive invariant of the Ack component) + trace validation with failure injection + response/log oracle',
+    "technique": 'Lean 4 proof (inductive invariant of the Ack component) + trace validation with failure injection + response/log oracle + regenerated commander skeleton (extract/commander -> Generated/Commander.lean on every run): well-formedness of every control path by decide, refinement of this component by the interpreted skeleton under every schedule, observed runs re-executed in the skeleton system',
     "design_ref": '5 (C06)',
 }
 
